@@ -8,8 +8,9 @@ Coq) on transcripts recorded from the real engines -- driven directly with stub 
 loopback handshakes -- against the bytes the real handler hashed (captured at hash_algo); run_dh and
 run_latch against the engines' e/f/K and the transports' session_id/H/K.
 Oracle: the property on observables: equal K and H on both peers, H = hash(RFC 4253/4419/5656 input),
-client holds the server's key after verifying, session_id == first H over 1-3 rekeys, and every
-single-field corruption of the server's kex reply makes the client abort before NEWKEYS.
+client holds the server's key after verifying, session_id == first H over 1-3 rekeys, every installed
+key is the RFC 4253 7.2 derivation with session id = first H, and every single-field corruption of the
+server's kex reply -- on the initial exchange or on a re-key -- makes the client abort before NEWKEYS.
 """
 import os
 import struct
@@ -168,6 +169,15 @@ def rfc_mpint(n):
             return rfc_string(n.to_bytes(k, "big", signed=True))
         except OverflowError:
             k += 1
+
+
+def rfc_kdf(hashf, K, H, X, sid, n):
+    """RFC 4253 section 7.2 key derivation with an explicit session identifier."""
+    kb = rfc_mpint(K)
+    out = hashf(kb + H + X + sid).digest()
+    while len(out) < n:
+        out += hashf(kb + H + out).digest()
+    return out[:n]
 
 
 def ref_input(fam, t):
@@ -363,43 +373,57 @@ class Stub:
         return self._pack
 
 
-def direct_exchange(name, cls, fam, alg, keys, rng, fault=None, old_style=False, small_x=None):
-    """Run the real client and server engines of one kex against each other through stub transports."""
+def direct_exchange(name, cls, fam, alg, keys, rng, fault=None, old_style=False, small_x=None, exchanges=1):
+    """Run the real client and server engines of one kex against each other through stub transports,
+    `exchanges` times over the same two transports (2nd, 3rd = re-key); a fault hits the last one."""
     from paramiko.message import Message
     from paramiko.kex_group14 import KexGroup14
     key = keys[alg][0]
     pack = Pack(KexGroup14.G, KexGroup14.P) if fam == 1 else None
     tc, ts = Stub(False, key, alg, rng), Stub(True, key, alg, rng, pack)
     tc.remote_version, ts.remote_version = ts.local_version, tc.local_version
-    tc.remote_kex_init, ts.remote_kex_init = ts.local_kex_init, tc.local_kex_init
-    kc, ks = cls(tc), cls(ts)
-    if small_x is not None and fam in (0, 1):
-        kc._generate_x = lambda: setattr(kc, "x", small_x[0])
-        ks._generate_x = lambda: setattr(ks, "x", small_x[1])
 
     def deliver(engine, raw):
         m = Message(raw[1:])
         engine.parse_next(raw[0], m)
 
-    out = {"client": tc, "server": ts, "kc": kc, "ks": ks, "exc": None, "fault_applied": False}
-    ks.start_kex()
-    if fam == 1 and old_style:
-        kc.start_kex(_test_old_style=True)
-    else:
-        kc.start_kex()
-    if fam == 1:
-        deliver(ks, tc.sent[-1])        # REQUEST / REQUEST_OLD
-        deliver(kc, ts.sent[-1])        # GROUP
-    deliver(ks, tc.sent[-1])            # INIT
-    reply = ts.sent[-1]
-    out["reply"] = reply
-    if fault is not None:
-        reply = reply[:1] + tamper(fault, fam, cls, reply[1:], alg, keys, lambda: ts.H, rng)
-        out["fault_applied"] = reply != ts.sent[-1]
-    try:
-        deliver(kc, reply)
-    except Exception as e:   # noqa: the client's reaction is the observable
-        out["exc"] = e
+    out = {"client": tc, "server": ts, "exc": None, "fault_applied": False, "H_list": [], "activated_before": 0}
+    for i in range(exchanges):
+        last = i == exchanges - 1
+        if i:
+            for t in (tc, ts):
+                t.local_kex_init = bytes([20]) + bytes(rng.getrandbits(8) for _ in range(rng.randrange(17, 60)))
+        tc.remote_kex_init, ts.remote_kex_init = ts.local_kex_init, tc.local_kex_init
+        kc, ks = cls(tc), cls(ts)
+        out["kc"], out["ks"] = kc, ks
+        if small_x is not None and fam in (0, 1):
+            kc._generate_x = lambda kc=kc: setattr(kc, "x", small_x[0])
+            ks._generate_x = lambda ks=ks: setattr(ks, "x", small_x[1])
+        ks.start_kex()
+        if fam == 1 and old_style:
+            kc.start_kex(_test_old_style=True)
+        else:
+            kc.start_kex()
+        if fam == 1:
+            deliver(ks, tc.sent[-1])        # REQUEST / REQUEST_OLD
+            deliver(kc, ts.sent[-1])        # GROUP
+        deliver(ks, tc.sent[-1])            # INIT
+        reply = ts.sent[-1]
+        out["reply"] = reply
+        out["activated_before"] = tc.calls.count("activate")
+        if fault is not None and last:
+            reply = reply[:1] + tamper(fault, fam, cls, reply[1:], alg, keys, lambda: ts.H, rng)
+            out["fault_applied"] = reply != ts.sent[-1]
+        try:
+            deliver(kc, reply)
+        except Exception as e:   # noqa: the client's reaction is the observable
+            out["exc"] = e
+            out["failed_at"] = i + 1
+            break
+        out["H_list"].append(ts.H)
+        if not last:
+            tc.K = ts.K = None   # what _parse_newkeys does
+    out["activated_after"] = tc.calls.count("activate")
     return out
 
 
@@ -447,9 +471,9 @@ def check_honest(ctx, where, name, cls, fam, alg, crec, srec, client_key_blob, c
 
 def check_abort(ctx, where, name, fault, aborted, activated, exc, case):
     if not aborted or activated:
-        ctx.fail("tamper-accepted:%s" % fault,
-                 "%s: client accepted a kex reply whose %s was altered (kex %s)%s" % (
-                     where, fault, name, "; outbound keys were activated" if activated else ""),
+        ctx.fail("tamper-accepted:%s%s" % (fault, "" if case.get("exchange", 1) == 1 else ":rekey"),
+                 "%s: client accepted a kex reply whose %s was altered (kex %s, exchange %s)%s" % (
+                     where, fault, name, case.get("exchange", 1), "; outbound keys were activated" if activated else ""),
                  case=case, expected="client aborts (SSHException) before NEWKEYS",
                  observed="no exception" if exc is None else "%s: %s" % (type(exc).__name__, str(exc)[:100]))
 
@@ -496,22 +520,29 @@ def run_direct(ctx, keys, model_cases, dh_cases):
                         dh_cases.append((coq((g, p, x, y)), [e, f, crec["K"], srec["K"]], case))
                 if len(ctx.samples) < 2:
                     ctx.sample({"direct": case, "H": crec["H"], "hm_len": len(crec["hm"] or b""), "K_equal": crec["K"] == srec["K"]})
-        # tamper runs
-        faults = FAULTS if T else [FAULTS[(ei + j * 3) % len(FAULTS)] for j in range(3)]
-        for fault in faults:
-            alg = algs[(ei + FAULTS.index(fault)) % len(algs)] if not T else rng.choice(algs)
-            if big and not T and fault not in ("pub-changed", "sig-other-key"):
-                pass
-            case = {"mode": "direct", "kex": name, "hostkey": alg, "old_style": False, "fault": fault}
-            o = direct_exchange(name, cls, fam, alg, keys, rng, fault)
-            ctx.count(("direct-fault", name, alg, fault), nontrivial=o["fault_applied"], kind="direct-fault:" + fault)
+        # tamper runs: on the initial exchange and on a re-key (2nd / 3rd exchange over the same transports)
+        if T:
+            plan = [(f, k) for f in FAULTS for k in ((1, 2) if big else (1, 2, 3))]
+        else:
+            plan = [(FAULTS[(ei + j * 3) % len(FAULTS)], k) for j, k in enumerate((1, 2, 1 if big else 3, 2))]
+        for fault, nex in plan:
+            alg = algs[(ei + FAULTS.index(fault) + nex) % len(algs)] if not T else rng.choice(algs)
+            case = {"mode": "direct", "kex": name, "hostkey": alg, "old_style": False, "fault": fault, "exchange": nex}
+            o = direct_exchange(name, cls, fam, alg, keys, rng, fault, exchanges=nex)
+            ctx.count(("direct-fault", name, alg, fault, nex), nontrivial=o["fault_applied"],
+                      kind="direct-fault:%s@%d" % (fault, nex))
             n += 1
+            if o.get("failed_at", nex) != nex:
+                ctx.fail("honest-exchange-fails:" + name, "direct drive: unaltered exchange %d raised %s: %s" % (
+                    o["failed_at"], type(o["exc"]).__name__, str(o["exc"])[:120]), case=case)
+                continue
+            if o["H_list"] and (o["client"].session_id != o["H_list"][0] or o["server"].session_id != o["H_list"][0]):
+                ctx.fail("session-id-changed", "direct drive: session_id differs from the first exchange hash after a re-key",
+                         case=case, expected=o["H_list"][0], observed=o["client"].session_id)
             if not o["fault_applied"]:
                 continue
-            check_abort(ctx, "direct drive", name, fault, o["exc"] is not None, "activate" in o["client"].calls,
-                        o["exc"], case)
-            if o["exc"] is not None and o["client"].host_key is not None:
-                ctx.fail("host-key-stored-on-abort:" + fault, "client stored a host key although it refused the reply", case=case)
+            check_abort(ctx, "direct drive", name, fault, o["exc"] is not None,
+                        o["activated_after"] > o["activated_before"], o["exc"], case)
     return n
 
 
@@ -548,6 +579,13 @@ def rec_transport_class():
             self._rec()["activate"] += 1
             super()._activate_outbound()
 
+        def _compute_key(self, id, nbytes):
+            out = super()._compute_key(id, nbytes)
+            self._rec().setdefault("derived", []).append({
+                "id": id if isinstance(id, bytes) else str(id).encode(), "n": nbytes, "out": out, "K": self.K, "H": self.H,
+                "engine": type(self.kex_engine)})
+            return out
+
         def _parse_newkeys(self, m):
             super()._parse_newkeys(m)
             r = self._rec()
@@ -556,17 +594,18 @@ def rec_transport_class():
     return RecTransport
 
 
-def tamper_packetizer(ptype_target, alter):
+def tamper_packetizer(ptype_target, alter, nth=1):
     from paramiko.packet import Packetizer
     from paramiko.message import Message
 
     class TamperPacketizer(Packetizer):
-        _c06_done = False
+        _c06_seen = 0
 
         def read_message(self):
             ptype, m = super().read_message()
-            if ptype == ptype_target and not self._c06_done:
-                self._c06_done = True
+            if ptype == ptype_target:
+                self._c06_seen += 1
+            if ptype == ptype_target and self._c06_seen == nth:
                 raw = m.asbytes()
                 new = alter(raw)
                 self._c06_changed = new != raw
@@ -577,8 +616,9 @@ def tamper_packetizer(ptype_target, alter):
     return TamperPacketizer
 
 
-def loopback(name, cls, fam, alg, keys, rng, rekeys=0, fault=None):
-    """Real handshake over a LoopSocket pair; returns both sides' records and the outcome."""
+def loopback(name, cls, fam, alg, keys, rng, rekeys=0, fault=None, fault_at=1):
+    """Real handshake over a LoopSocket pair; returns both sides' records and the outcome.
+    With a fault: exchange number `fault_at` (1 = initial, 2.. = re-key) gets its reply altered."""
     import paramiko
     from _loop import LoopSocket
     from paramiko.kex_group14 import KexGroup14
@@ -590,9 +630,15 @@ def loopback(name, cls, fam, alg, keys, rng, rekeys=0, fault=None):
     if fault is not None:
         def alter(raw):
             return tamper(fault, fam, cls, raw, alg, keys, lambda: ts.H, rng)
-        kw["packetizer_class"] = tamper_packetizer(33 if fam == 1 else 31, alter)
+        kw["packetizer_class"] = tamper_packetizer(33 if fam == 1 else 31, alter, fault_at)
+        rekeys = fault_at - 1
     tc = RT(a, **kw)
-    out = {"exc": None, "rekey_exc": None}
+    out = {"exc": None, "rekey_exc": None, "pre_exc": None}
+
+    def settle(nk):
+        t0 = time.time()
+        while time.time() - t0 < 10 and not (ts._rec()["newkeys"] >= nk and tc._rec()["newkeys"] >= nk):
+            time.sleep(0.005)
     try:
         for t in (tc, ts):
             t.get_security_options().kex = [name]
@@ -606,23 +652,23 @@ def loopback(name, cls, fam, alg, keys, rng, rekeys=0, fault=None):
             tc.start_client(timeout=40)
         except Exception as e:   # noqa: the client's reaction is the observable
             out["exc"] = e
-        if out["exc"] is None and fault is None:
-            t0 = time.time()
-            while time.time() - t0 < 10 and not (ts._rec()["newkeys"] >= 1 and tc._rec()["newkeys"] >= 1):
-                time.sleep(0.005)
+        if out["exc"] is None:
+            settle(1)
             for i in range(rekeys):
+                tampered = fault is not None and i == rekeys - 1
+                if tampered:
+                    out["activate_before"] = tc._rec()["activate"]
+                    out["newkeys_before"] = tc._rec()["newkeys"]
                 try:
                     tc.renegotiate_keys()
                 except Exception as e:   # noqa
-                    out["rekey_exc"] = e
+                    out["exc" if tampered else "rekey_exc"] = e
                     break
-                t0 = time.time()
-                while time.time() - t0 < 10 and not (ts._rec()["newkeys"] >= i + 2 and tc._rec()["newkeys"] >= i + 2):
-                    time.sleep(0.005)
-        elif fault is not None:
-            t0 = time.time()
-            while time.time() - t0 < 3 and tc.is_active() and out["exc"] is not None:
-                time.sleep(0.01)
+                settle(i + 2)
+        elif fault is not None and fault_at > 1:
+            out["pre_exc"], out["exc"] = out["exc"], None
+        out.setdefault("activate_before", 0)
+        out.setdefault("newkeys_before", 0)
         out["changed"] = getattr(tc.packetizer, "_c06_changed", None)
         out["client"] = dict(tc._rec(), sid=tc.session_id, K=tc.K, H=tc.H, active=tc.is_active(),
                              initial_kex_done=tc.initial_kex_done,
@@ -636,8 +682,8 @@ def loopback(name, cls, fam, alg, keys, rng, rekeys=0, fault=None):
         b.close()
 
 
-def do_loopback(name, cls, fam, alg, keys, rng, rekeys=0, fault=None):
-    st, o = with_watchdog(lambda: loopback(name, cls, fam, alg, keys, rng, rekeys, fault), 120)
+def do_loopback(name, cls, fam, alg, keys, rng, rekeys=0, fault=None, fault_at=1):
+    st, o = with_watchdog(lambda: loopback(name, cls, fam, alg, keys, rng, rekeys, fault, fault_at), 120)
     return o if st == "ok" else {"harness_problem": "%s %r" % (st, o)}
 
 
@@ -657,7 +703,7 @@ def check_loop_honest(ctx, name, cls, fam, alg, rekeys, o, case, model_cases, la
         crec = dict(crec, hostkey=None)
         check_honest(ctx, "handshake (exchange %d)" % (i + 1), name, cls, fam, alg, crec, srec, c["remote_key"],
                      dict(case, exchange=i + 1),
-                     model_cases if len(model_cases) < (400 if ctx.thorough else 56) and (ctx.thorough or i == 0) else [])
+                     model_cases if len(model_cases) < (400 if ctx.thorough else 44) and (ctx.thorough or i == 0) else [])
     first = c["kex"][0]["H"]
     for side, r in (("client", c), ("server", s)):
         sids = [k["sid"] for k in r["kex"]] + [r["sid"]]
@@ -671,6 +717,17 @@ def check_loop_honest(ctx, name, cls, fam, alg, rekeys, o, case, model_cases, la
         latch_cases.append((coq([(k["K"], list(k["H"])) for k in r["kex"]]),
                             [1] + list(r["sid"] or b"") + [-1, 1] + list(r["H"] or b"") + [-1] + ([0] if r["K"] is None else [2, r["K"]]),
                             dict(case, side=side)))
+    for side, r in (("client", c), ("server", s)):
+        for d in r.get("derived", []):
+            hashf = real_hash(d["engine"])
+            wantk = rfc_kdf(hashf, d["K"], d["H"], d["id"], first, d["n"])
+            if d["out"] != wantk:
+                nth = [k["H"] for k in r["kex"]].index(d["H"]) + 1 if d["H"] in [k["H"] for k in r["kex"]] else 0
+                ctx.fail("derived-key-session-id" if nth > 1 else "derived-key-not-rfc",
+                         "%s: key %r installed after exchange %d is not HASH(K || H || X || session_id) with session_id = "
+                         "the first exchange hash (RFC 4253 7.2)" % (side, d["id"].decode(), nth),
+                         case=dict(case, side=side, letter=d["id"].decode(), exchange=nth), expected=wantk, observed=d["out"])
+                break
     if len({k["H"] for k in c["kex"]}) != want:
         ctx.notes.append("exchange hashes repeated across rekeys in %r" % (case,))
     if c["verify"] != ["ok"] * want:
@@ -717,35 +774,40 @@ def run_loopback(ctx, keys, model_cases, latch_cases):
         if len(ctx.samples) < 4:
             ctx.sample({"handshake": case, "session_id": o["client"]["sid"],
                         "H_per_exchange": [k["H"] for k in o["client"]["kex"]]})
-    # (c) tamper runs
+    # (c) tamper runs, on the initial exchange and on the 2nd / 3rd (re-key)
     tcombos = []
     if T:
         for nm in names:
             for fault in FAULTS:
-                for alg in rng.sample(algs, 1 if "group16" in nm else 2):
-                    tcombos.append((nm, alg, fault))
+                for k, alg in enumerate(rng.sample(algs, 1 if "group16" in nm else 2)):
+                    tcombos.append((nm, alg, fault, (2 if "group16" in nm else 1 + k * rng.randrange(1, 3))))
     else:
         for i, nm in enumerate(names):
             for j, fault in enumerate(FAULTS):
                 if "group16" in nm and j % 4 != i % 4:
                     continue
-                tcombos.append((nm, algs[(i + 2 * j) % len(algs)], fault))
-    for nm, alg, fault in tcombos:
+                tcombos.append((nm, algs[(i + 2 * j) % len(algs)], fault, 1 + (i + j) % (2 if "group16" in nm else 3)))
+    for nm, alg, fault, at in tcombos:
         cls, fam = eng[nm]
-        case = {"mode": "handshake", "kex": nm, "hostkey": alg, "rekeys": 0, "fault": fault}
-        o = do_loopback(nm, cls, fam, alg, keys, rng, 0, fault)
+        case = {"mode": "handshake", "kex": nm, "hostkey": alg, "rekeys": at - 1, "fault": fault, "exchange": at}
+        o = do_loopback(nm, cls, fam, alg, keys, rng, 0, fault, at)
         if "harness_problem" in o:
             ctx.notes.append("tamper run %r did not finish: %s" % (case, o["harness_problem"]))
             continue
-        ctx.count(("tamper", nm, alg, fault), nontrivial=bool(o.get("changed")), kind="tamper:" + fault)
+        ctx.count(("tamper", nm, alg, fault, at), nontrivial=bool(o.get("changed")), kind="tamper:%s@%d" % (fault, at))
         n += 1
+        if o["pre_exc"] is not None or o["rekey_exc"] is not None:
+            e = o["pre_exc"] or o["rekey_exc"]
+            ctx.fail("honest-handshake-fails:" + nm, "an unaltered exchange before the tampered one raised %s: %s" % (
+                type(e).__name__, str(e)[:120]), case=case)
+            continue
         if not o.get("changed"):
             ctx.notes.append("tamper run %r: the reply was not seen / not changed" % (case,))
             continue
         c = o["client"]
         check_abort(ctx, "handshake", nm, fault, o["exc"] is not None and not c["active"],
-                    c["activate"] > 0 or c["newkeys"] > 0 or c["initial_kex_done"], o["exc"], case)
-        if o["exc"] is not None and c["remote_key"] is not None:
+                    c["activate"] > o["activate_before"] or c["newkeys"] > o["newkeys_before"], o["exc"], case)
+        if at == 1 and o["exc"] is not None and c["remote_key"] is not None:
             ctx.fail("host-key-stored-on-abort:" + fault, "client stored a host key although it refused the reply", case=case)
     return n
 
@@ -786,7 +848,9 @@ def run(ctx):
                 "renegotiate_keys(), (c) re-run with exactly one field of the server's reply altered (host key swapped for "
                 "another key of the same / another type, bit flipped in the key blob, f / Q_S replaced by another valid "
                 "value, signature bit flipped / made by another key over the same H / made by the right key over other "
-                "data / emptied).  A case is non-trivial when distinct and, for tamper runs, when the reply really changed")
+                "data / emptied) -- on the initial exchange or on the 2nd / 3rd exchange (re-key) of the same transports.  "
+                "Every key a transport installs (_compute_key result) is compared with an independent RFC 4253 7.2 "
+                "derivation whose session id is the FIRST exchange hash.  A case is non-trivial when distinct and, for tamper runs, when the reply really changed")
     ctx.trusted += ["gen/c06.py translator (fail-closed): layout / reply_sent / reply_read / setkh_prog / verify_over in Gen/C06_gen.v",
                     "hash, signatures, ECDH / X25519 are the cryptography library's; symbolic in the proofs",
                     "the hash input is captured by substituting each engine class's hash_algo with a recording wrapper "
@@ -823,7 +887,8 @@ def replay(ctx, rep):
         for attempt in range(3):
             ctx.count(("replay", attempt, str(case)))
             if case.get("mode") == "direct":
-                o = direct_exchange(case["kex"], cls, fam, alg, keys, ctx.rng, fault, bool(case.get("old_style")))
+                o = direct_exchange(case["kex"], cls, fam, alg, keys, ctx.rng, fault, bool(case.get("old_style")),
+                                    exchanges=int(case.get("exchange") or 1) if fault is not None else 1)
                 if fault is None:
                     if o["exc"] is not None:
                         ctx.fail(rep["key"], rep["what"], case=case, observed=repr(o["exc"]))
@@ -835,9 +900,10 @@ def replay(ctx, rep):
                                  hk.asbytes() if hk is not None else None, case, mc)
                 elif o["fault_applied"]:
                     check_abort(ctx, "direct drive", case["kex"], fault, o["exc"] is not None,
-                                "activate" in o["client"].calls, o["exc"], case)
+                                o["activated_after"] > o["activated_before"], o["exc"], case)
             else:
-                o = do_loopback(case["kex"], cls, fam, alg, keys, ctx.rng, int(case.get("rekeys") or 0), fault)
+                o = do_loopback(case["kex"], cls, fam, alg, keys, ctx.rng, int(case.get("rekeys") or 0), fault,
+                                int(case.get("exchange") or 1))
                 if "harness_problem" in o:
                     continue
                 if fault is None:
@@ -845,5 +911,5 @@ def replay(ctx, rep):
                 elif o.get("changed"):
                     c = o["client"]
                     check_abort(ctx, "handshake", case["kex"], fault, o["exc"] is not None and not c["active"],
-                                c["activate"] > 0 or c["newkeys"] > 0 or c["initial_kex_done"], o["exc"], case)
+                                c["activate"] > o["activate_before"] or c["newkeys"] > o["newkeys_before"], o["exc"], case)
     ctx.log("replayed %r" % (case,))
